@@ -16,6 +16,7 @@ import Mathlib.Algebra.Order.Field.Rat
 import Mathlib.Algebra.Order.Field.Basic
 import Mathlib.Tactic.Positivity
 import Sb.Model.Stats
+import Sb.Proofs.CertSound
 
 namespace Sb.C13
 open Sb Sb.Poly Sb.Stats
